@@ -29,7 +29,43 @@ def run(ctx) -> None:
     ctx.section("typing", _typing, ctx)
     ctx.section("shape", _shape, ctx)
     ctx.section("nodata", _nodata, ctx)
+    ctx.section("inference", _inference_rule, ctx)
     ctx.not_decided.append("round-trip faithfulness of cell texts, quoting, unicode: the csv module's behaviour on concrete inputs")
+
+
+def _inference_rule(ctx) -> None:
+    """'Column dtypes follow the ordinary inference rule for the cell values': the columns are built with Vector(<cells>) (c.shape), so
+    the clause is the inference rule itself - C04's automaton extraction of infer_dtype (order independence, None only adds
+    nullability), run here and summarised in one obligation."""
+    from . import c04 as _c04
+
+    class _Sum:
+        def __init__(self):
+            self.prog = ctx.prog
+            self.tier = ctx.tier
+            self.extra = {}
+            self.obligations = []
+            self.failed = []
+            self.n = 0
+            self.exhaustive = True
+
+        def ob(self, rule, func, role, ok, what, node=None, message="", witness=""):
+            self.n += 1
+            if not ok:
+                self.failed.append(f"{rule}/{role}: {message or what}")
+            return ok
+
+        def info(self, msg):
+            pass
+
+        def rule(self, *a, **k):
+            pass
+    px = _Sum()
+    _c04._automaton(px, _c04.CORE_TAGS + _c04.SUB_TAGS, list(_c04.CORE_TAGS))
+    f = ctx.prog.func("typing.infer_dtype")
+    ctx.ob("c.shape", f, "inference-rule", not px.failed and px.n > 0,
+           f"infer_dtype satisfies the {px.n} obligations of C04's automaton (order independence, None adds nullability only)", f.node,
+           message="the inference rule that types every CSV column is broken: " + "; ".join(px.failed[:2])[:600])
 
 
 def _lexing(ctx) -> None:
